@@ -156,10 +156,10 @@ func RunVerifyWithOpts(c *gen.Concrete, reuse *verify.Options, id, sub int, o ma
 	if o["entry"] == "msg" {
 		m := MsgFromQuote(c.Q)
 		widen(m, c)
-		out = Guard(20*time.Second, func() error { return verify.TdxQuote(m, opts) })
+		out = Guard(120*time.Second, func() error { return verify.TdxQuote(m, opts) })
 	} else {
 		raw := append([]byte{}, c.Raw...)
-		out = Guard(20*time.Second, func() error { return verify.RawTdxQuote(raw, opts) })
+		out = Guard(120*time.Second, func() error { return verify.RawTdxQuote(raw, opts) })
 	}
 	call := Event{"ev": "Call", "case": id, "sub": sub, "w": FullWorld(c.W), "o": o}
 	for k, v := range extra {
@@ -386,7 +386,7 @@ func RunHistoryCase(cs map[string]any, id int, seed int64) Result {
 			// the reporting call between the two verifications, through the same Options value; what it returns is not judged here
 			// (C04 / TcbLevels judge it), only that it leaves the options as the caller set them
 			m := MsgFromQuote(c.Q)
-			Guard(20*time.Second, func() error { _, _, err := verify.SupportedTcbLevelsFromCollateral(m, shared); return err })
+			Guard(120*time.Second, func() error { _, _, err := verify.SupportedTcbLevelsFromCollateral(m, shared); return err })
 		}
 	}
 	return res
@@ -487,7 +487,7 @@ func rootOfTrustOptions(c *gen.Concrete, via string, o map[string]any) (*verify.
 		panic("bad rotVia " + via)
 	}
 	var opts *verify.Options
-	out := Guard(10*time.Second, func() error {
+	out := Guard(90*time.Second, func() error {
 		var err error
 		opts, err = verify.RootOfTrustToOptions(rot)
 		return err
